@@ -441,8 +441,22 @@ class OpGen:
         if single and plain:
             feasible += ["family_migrates"] * 2
         feasible += ["twin_values"] * 2
+        if self.cfg.get("commented_values"):
+            feasible += ["commented_leaf"] * 3
         kind = rng.choice(feasible)
         ops: list = []
+        if kind == "commented_leaf":
+            # a VALUE that ends in a comment goes to a leaf of an attrpath family (existing or made for the purpose) and
+            # to a plain name: whatever set holds them must end its line behind the comment
+            self.n += 1
+            root = rng.choice(families + single) if (families or single) and rng.random() < 0.6 else "cm"
+            ops.append({"op": "set", "path": npath(depth, (root, rng.choice(["nu", "x9"]))), "value": "%d # note%d" % (self.tag * 1000 + self.n, self.n)})
+            if rng.random() < 0.5:
+                self.n += 1
+                existing_leaves = leaves_of.get(root) or []
+                tgt = rng.choice(existing_leaves) if existing_leaves and rng.random() < 0.6 else (root, "mu")
+                ops.append({"op": "set", "path": npath(depth, tgt), "value": "%d # note%d" % (self.tag * 1000 + self.n, self.n)})
+            return ops
         if kind == "twin_values":
             # the same compound VALUE text goes to two places, then one of the two is edited from the inside: the other
             # (and whatever the process keeps of that text) must not follow
